@@ -2,7 +2,9 @@ package props
 
 import (
 	"bytes"
+
 	"fmt"
+	"github.com/gregoryv/mq"
 	"runtime"
 	"testing"
 
@@ -37,11 +39,19 @@ func declaredSize(frame []byte) int {
 
 var memBefore, memAfter runtime.MemStats
 
+// lastC05Packet is the packet the most recent checkC05 call returned (nil if
+// the input was rejected); the test keeps such packets and re-inspects them.
+var lastC05Packet mq.ControlPacket
+
 func checkC05(entry string, frame []byte) (accepted bool, sig, msg string) {
+	lastC05Packet = nil
 	size := declaredSize(frame)
 	runtime.ReadMemStats(&memBefore)
 	p, err, pan := decodeVia(entry, frame)
 	runtime.ReadMemStats(&memAfter)
+	if err == errWaitsBeyondFrame {
+		return false, "waits-beyond-frame", fmt.Sprintf("%s: the complete frame %s was delivered on a stream that stays open, but the call does not return", entry, hx(frame))
+	}
 	if pan != nil {
 		// a panic is C04's business; it is reported here too because the
 		// call did not return normally.
@@ -52,6 +62,7 @@ func checkC05(entry string, frame []byte) (accepted bool, sig, msg string) {
 		return false, "alloc", fmt.Sprintf("%s on a frame of declared size %d allocated %d bytes (limit %d): %s", entry, size, alloc, limit, hx(frame))
 	}
 	if err == nil && p != nil {
+		lastC05Packet = p
 		m := api.Observe(p)
 		if n := maxListLen(&m); n > len(frame) {
 			return true, "list-longer-than-frame", fmt.Sprintf("%s returned a packet with a list of %d elements from a frame of %d bytes: %s", entry, n, len(frame), hx(frame))
@@ -189,7 +200,28 @@ func TestC05(t *testing.T) {
 		if len(frame) > 0 {
 			e = append(e, fmt.Sprintf("Unmarshal:%d", frame[0]>>4))
 		}
+		if total, _, err := ref.FrameLen(frame); err == nil && total == len(frame) && rapid.IntRange(0, 3).Draw(t, "open") == 0 {
+			e = append(e, "ReadPacketOpen") // only complete frames: an incomplete one may wait
+		}
 		return e
+	}
+	sent := newSentinels()
+	recent := &recentPackets{}
+	sentinelCheck := func(t *rapid.T, frame []byte, entry string) {
+		if d := sent.check(); d != "" {
+			msg := fmt.Sprintf("decoding %s (%s) changed a packet returned earlier: %s", hx(frame), entry, d)
+			r.Fail("decode", caseFrame{Frame: frame, Entry: entry, Note: "sentinel"}, "earlier-packet-changed", "%s", msg)
+			t.Fatalf("%s", msg)
+		}
+		if d := recent.check(); d != "" {
+			msg := fmt.Sprintf("decoding %s (%s) changed a packet returned earlier: %s", hx(frame), entry, d)
+			r.Fail("decode", caseFrame{Frame: frame, Entry: entry, Note: "history", History: recent.history()}, "earlier-packet-changed", "%s", msg)
+			*recent = recentPackets{}
+			t.Fatalf("%s", msg)
+		}
+		if entry != "ReadPacketOpen" {
+			recent.add(frame, entry, lastC05Packet)
+		}
 	}
 	r.Rapid(t, "repeated-sections", vf.N(6000, 1500000), func(t *rapid.T) {
 		frame, class, nt := genRepeatedSection(t)
@@ -202,6 +234,7 @@ func TestC05(t *testing.T) {
 				r.Fail("decode", caseFrame{Frame: frame, Entry: entry, Note: class}, sig, "%s", msg)
 				t.Fatalf("%s", msg)
 			}
+			sentinelCheck(t, frame, entry)
 		}
 	})
 	r.Rapid(t, "hostile", vf.N(4000, 1000000), func(t *rapid.T) {
@@ -213,6 +246,7 @@ func TestC05(t *testing.T) {
 				r.Fail("decode", caseFrame{Frame: frame, Entry: entry, Note: kind}, sig, "%s", msg)
 				t.Fatalf("%s", msg)
 			}
+			sentinelCheck(t, frame, entry)
 		}
 	})
 	if *vf.Shard == 0 && !r.Failed() {
